@@ -69,6 +69,7 @@ class Graph(object):
         self.endpoints = {}          # vertex -> Routes
         self.located = {}            # vertex -> (x, y)
         self.same_chip = []          # [[v, ...]]
+        self.sdram_max = 2000
 
     def describe(self):
         return "%d vertices, %d nets, %d location, %d same-chip groups, %d " \
@@ -80,7 +81,8 @@ class Graph(object):
 def new_vertex(t, g, par, kind=None, sdram_max=2000):
     i = len(g.vertices_resources)
     v = V(i)
-    k = t.weighted([10, 2, 2, 1, 1]) if kind is None else kind
+    k = t.weighted([10, 2, 2, 1, 1] if sdram_max > 100 else [6, 1, 8, 1, 1]) \
+        if kind is None else kind
     res = collections.OrderedDict()
     if k == 0:
         res[par.Cores] = 1
@@ -106,7 +108,7 @@ def add_net(t, g, par, max_fanout=12):
 
     def pick(new_p):
         if not vs or t.chance(new_p):
-            v = new_vertex(t, g, par)
+            v = new_vertex(t, g, par, sdram_max=g.sdram_max)
             vs.append(v)
             return v
         return vs[t.draw(len(vs))]
